@@ -28,3 +28,30 @@ Example C07_witness :
   exists plan, slice_plan (Some (-3)) (Some 9) None = Some plan
             /\ run_plan plan [0;1;2;3;4;5;6;7;8;9] = [7;8].
 Proof. eexists; split; vm_compute; reflexivity. Qed.
+
+(* the integer-index form: Observable.__getitem__ turns source[i] into slice_(i, i + 1, 1) (that mapping is
+   tied by the harness run of source[i]); the plan built for it computes list(source)[i:i+1] *)
+Theorem C07_getitem_int :
+  forall (A : Type) (l : list A) (i : Z),
+    zlen l <= maxsize ->
+    exists plan, slice_plan (Some i) (Some (i + 1)) (Some 1) = Some plan
+              /\ forallb pop_ok plan = true
+              /\ run_plan plan l = py_slice l (Some i) (Some (i + 1)) (Some 1).
+Proof. exact @getitem_int_correct. Qed.
+Print Assumptions C07_getitem_int.
+
+(* ... which is the i-th element (if any) for i >= 0 -- and nothing for i = -1 (list[-1:0] is empty) *)
+Theorem C07_getitem_int_nonneg :
+  forall (A : Type) (l : list A) (i : Z), 0 <= i ->
+    py_slice l (Some i) (Some (i + 1)) (Some 1) = firstn 1 (skipn (Z.to_nat i) l).
+Proof. exact @getitem_int_nonneg. Qed.
+Print Assumptions C07_getitem_int_nonneg.
+Theorem C07_getitem_minus_one_is_empty :
+  forall (A : Type) (l : list A), py_slice l (Some (-1)) (Some 0) (Some 1) = [].
+Proof. exact @getitem_int_minus_one. Qed.
+Print Assumptions C07_getitem_minus_one_is_empty.
+
+Example C07_witness_getitem :
+  exists plan, slice_plan (Some (-3)) (Some (-2)) (Some 1) = Some plan
+            /\ run_plan plan [0;1;2;3;4;5;6;7;8;9] = [7].
+Proof. eexists; split; vm_compute; reflexivity. Qed.
